@@ -456,10 +456,16 @@ func main() {
 		c.Obs.Evaluations++
 		c.Count(kind)
 		var r result
-		if sc.Loop != nil {
-			r = runLoop(sc)
-		} else {
-			r = runScript(sc)
+		finished := mtx.Watchdog(40*time.Second, func() {
+			if sc.Loop != nil {
+				r = runLoop(sc)
+			} else {
+				r = runScript(sc)
+			}
+		}, nil)
+		if !finished {
+			c.Violate("scenario-hang", "the ping scenario did not finish within 40 s", -1, 0, sc)
+			return
 		}
 		sh, ix := -1, 0
 		if r.Fail == "" {
